@@ -19,7 +19,7 @@ A *model* is a plain JSON-able dict (so it can be stored in a replay file / corp
                                                             # e.g. of a type code no format version assigns
 
   code = {"regs": int, "ins": int, "outs": int, "insns": hex (opaque: may hold undecodable units), "tries": [[start, count, [[type, addr], ...],
-          catch_all | None], ...], "debug": None | [line_start, [param names | None]]}
+          catch_all | None], ...], "debug": None | [line_start, [param names | None]] | [line_start, [names], [[opcode, operands ...], ...]]}
   init = [value_type, value]   (only int-like / string / null values)
 
 API
@@ -126,6 +126,20 @@ def _code(rng, params, static, classes):
     debug = None
     if rng.random() < 0.2:
         debug = [rng.randrange(1, 500), [rng.choice([None, "p", "arg"]) for _ in params]]
+        if rng.random() < 0.6:             # state machine bytecodes: [opcode, operand values ...] (DBG_KINDS)
+            ops = []
+            for _ in range(rng.randrange(1, 7)):
+                op = rng.choice([1, 2, 3, 4, 5, 6, 7, 8, 9, 10, 0x40, 0xff])
+                args = []
+                for k in DBG_KINDS.get(op, ""):
+                    if k == "u":
+                        args.append(rng.choice([0, 1, 5, 200, 70000]))
+                    elif k == "s":
+                        args.append(rng.choice([0, 1, -1, -64, 63, 64, -65, 5000, -5000]))
+                    else:
+                        args.append(rng.choice([-1, 0, 1, 300]))
+                ops.append([op] + args)
+            debug.append(ops)
     return {"regs": regs, "ins": ins_words, "outs": rng.randrange(0, 4), "insns": insns, "tries": tries,
             "debug": debug}
 
@@ -244,14 +258,29 @@ def gen_model(rng, max_classes=4, adversarial=None):
 
 # --------------------------------------------------------------------------- building
 
+# operands of the debug_info state machine bytecodes (format document): u = uleb128, s = sleb128, p = uleb128p1
+DBG_KINDS = {1: "u", 2: "s", 3: "upp", 4: "uppp", 5: "u", 6: "u", 9: "p"}
+
+
+def debug_opcodes(ops):
+    """bytes of the bytecodes [[opcode, operands ...], ...] followed by DBG_END_SEQUENCE"""
+    out = b""
+    for o in ops:
+        out += bytes([o[0]])
+        for k, v in zip(DBG_KINDS.get(o[0], ""), o[1:]):
+            out += A.uleb128(v) if k == "u" else (A.sleb128(v) if k == "s" else A.uleb128p1(v))
+    return out + b"\x00"
+
+
 def _mk_code(c):
     if c is None:
         return None
     tries = [A.Try(t[0], t[1], [(h[0], h[1]) for h in t[2]], t[3]) for t in c["tries"]]
     dbg = None
     if c.get("debug") is not None:
-        line, pnames = c["debug"]
-        dbg = (lambda line, pnames: (lambda b: A.debug_info_item(line, pnames, b'\x00', b)))(line, pnames)
+        line, pnames = c["debug"][:2]
+        opc = debug_opcodes(c["debug"][2]) if len(c["debug"]) > 2 else b'\x00'
+        dbg = (lambda line, pnames, opc: (lambda b: A.debug_info_item(line, pnames, opc, b)))(line, pnames, opc)
     return A.Code(c["regs"], c["ins"], c["outs"], bytes.fromhex(c["insns"]), tries=tries, debug_info=dbg)
 
 
